@@ -184,7 +184,7 @@ PROPS = {
         ],
     },
     "C20": {
-        "units": ["store"], "label_prefixes": ["C20."], "level": "proof",
+        "units": ["store"], "label_prefixes": ["C20.", "C04.get.pool_preserved"], "level": "proof",
         "trusted": ["T1", "T4", "T8", "T11", "T12", "T13", "T13s", "TLOG", "TARC", "RW", "DERIVE"],
         "assumptions": [
             "fault model: every World operation may fail nondeterministically (one or many faults, any position); a failed append may leave a torn tail, a failed flush a partial record",
